@@ -13,6 +13,7 @@
         open spec fn self_delimiting() -> bool { true }
         open spec fn dec_rel(b: Seq<u8>, v: &u8, k: int) -> bool { true }
         open spec fn dec_total() -> bool { false }
+        open spec fn dec_stop(rest: Seq<u8>) -> bool { true }
         open spec fn functional() -> bool { true }
         proof fn law_dec_bounds(b: Seq<u8>) {}
         //@ tag enc.law_dec_frame.le.u8 C14
@@ -40,6 +41,7 @@
         open spec fn self_delimiting() -> bool { true }
         open spec fn dec_rel(b: Seq<u8>, v: &u16, k: int) -> bool { true }
         open spec fn dec_total() -> bool { false }
+        open spec fn dec_stop(rest: Seq<u8>) -> bool { true }
         open spec fn functional() -> bool { true }
         proof fn law_dec_bounds(b: Seq<u8>) {}
         //@ tag enc.law_dec_frame.le.u16 C14
@@ -67,6 +69,7 @@
         open spec fn self_delimiting() -> bool { true }
         open spec fn dec_rel(b: Seq<u8>, v: &u32, k: int) -> bool { true }
         open spec fn dec_total() -> bool { false }
+        open spec fn dec_stop(rest: Seq<u8>) -> bool { true }
         open spec fn functional() -> bool { true }
         proof fn law_dec_bounds(b: Seq<u8>) {}
         //@ tag enc.law_dec_frame.le.u32 C14
@@ -94,6 +97,7 @@
         open spec fn self_delimiting() -> bool { true }
         open spec fn dec_rel(b: Seq<u8>, v: &u64, k: int) -> bool { true }
         open spec fn dec_total() -> bool { false }
+        open spec fn dec_stop(rest: Seq<u8>) -> bool { true }
         open spec fn functional() -> bool { true }
         proof fn law_dec_bounds(b: Seq<u8>) {}
         //@ tag enc.law_dec_frame.le.u64 C14
@@ -121,6 +125,7 @@
         open spec fn self_delimiting() -> bool { true }
         open spec fn dec_rel(b: Seq<u8>, v: &usize, k: int) -> bool { true }
         open spec fn dec_total() -> bool { false }
+        open spec fn dec_stop(rest: Seq<u8>) -> bool { true }
         open spec fn functional() -> bool { true }
         proof fn law_dec_bounds(b: Seq<u8>) {}
         //@ tag enc.law_dec_frame.le.usize C14
@@ -149,6 +154,7 @@
         open spec fn self_delimiting() -> bool { true }
         open spec fn dec_rel(b: Seq<u8>, v: &u8, k: int) -> bool { true }
         open spec fn dec_total() -> bool { false }
+        open spec fn dec_stop(rest: Seq<u8>) -> bool { true }
         open spec fn functional() -> bool { true }
         proof fn law_dec_bounds(b: Seq<u8>) {}
         //@ tag enc.law_dec_frame.be.u8 C14
@@ -176,6 +182,7 @@
         open spec fn self_delimiting() -> bool { true }
         open spec fn dec_rel(b: Seq<u8>, v: &u16, k: int) -> bool { true }
         open spec fn dec_total() -> bool { false }
+        open spec fn dec_stop(rest: Seq<u8>) -> bool { true }
         open spec fn functional() -> bool { true }
         proof fn law_dec_bounds(b: Seq<u8>) {}
         //@ tag enc.law_dec_frame.be.u16 C14
@@ -203,6 +210,7 @@
         open spec fn self_delimiting() -> bool { true }
         open spec fn dec_rel(b: Seq<u8>, v: &u32, k: int) -> bool { true }
         open spec fn dec_total() -> bool { false }
+        open spec fn dec_stop(rest: Seq<u8>) -> bool { true }
         open spec fn functional() -> bool { true }
         proof fn law_dec_bounds(b: Seq<u8>) {}
         //@ tag enc.law_dec_frame.be.u32 C14
@@ -230,6 +238,7 @@
         open spec fn self_delimiting() -> bool { true }
         open spec fn dec_rel(b: Seq<u8>, v: &u64, k: int) -> bool { true }
         open spec fn dec_total() -> bool { false }
+        open spec fn dec_stop(rest: Seq<u8>) -> bool { true }
         open spec fn functional() -> bool { true }
         proof fn law_dec_bounds(b: Seq<u8>) {}
         //@ tag enc.law_dec_frame.be.u64 C14
@@ -257,6 +266,7 @@
         open spec fn self_delimiting() -> bool { true }
         open spec fn dec_rel(b: Seq<u8>, v: &usize, k: int) -> bool { true }
         open spec fn dec_total() -> bool { false }
+        open spec fn dec_stop(rest: Seq<u8>) -> bool { true }
         open spec fn functional() -> bool { true }
         proof fn law_dec_bounds(b: Seq<u8>) {}
         //@ tag enc.law_dec_frame.be.usize C14
